@@ -69,10 +69,11 @@ RULES["C04"] = ("generated deadlock-free benches on ST / controlled ST / MT 2-16
                 "at every Ok return no handler or port operation is open and no model event lies outside a call; per-command invocation multisets equal the "
                 "reference interpreter on every executor; hang watchdog (no progress + all threads sleeping); part wide: one handler wakes 300-3000 leaf tasks (more than a worker's 256-slot local queue, "
                 "so buckets of tasks travel through the injector concurrently) which forward to one collector through a small mailbox, 20-60 rounds per simulation on 2-16 threads: every call must return Ok with every "
-                "leaf and collector handler run exactly once per round; non-trivial = more than one handler ran / wide execution in which injector buckets were popped")
+                "leaf and collector handler run exactly once per round; part visible: handlers bump Relaxed counters that the calling thread reads (Relaxed) right after an Ok return, with bursts of yields at the idle hand-off so that the caller "
+                "sees the idle pool without parking: all effects must be visible (the return happens-after every handler); non-trivial = more than one handler ran / wide execution in which injector buckets were popped")
 sim_plan("C04", ["dag", "mt", "timer"], miri_parts=["mt"], tsan_parts=["mt"])
-PLAN["C04"]["quick"].append(job("native", "wide", 16, 600))
-PLAN["C04"]["thorough"] += [job("native", "wide", 16, 3000), miri("wide", 2, 2, 3000), job("tsan", "wide", 8, 1800, args=["--scale", "0.02"])]
+PLAN["C04"]["quick"] += [job("native", "wide", 16, 600), job("native", "visible", 16, 600), miri("visible", 4, 8, 900)]
+PLAN["C04"]["thorough"] += [job("native", "visible", 16, 3000), miri("visible", 8, 32, 3000), job("native", "wide", 16, 3000), miri("wide", 2, 2, 3000), job("tsan", "wide", 8, 1800, args=["--scale", "0.02"])]
 LEVEL["C05"] = "exploration"
 RULES["C05"] = ("capacity-1 DAG benches on MT executors with delays at task/executor/channel sites; per-model busy flag and HBegin/HEnd stamp intervals must never overlap; "
                 "a plain (non-atomic) model field written by every handler exposes double polls to Miri/TSan as data races; part gates: replier handlers blocked on harness gates whose polls are widened by a busy-wait while a conductor model "
